@@ -54,7 +54,11 @@ _sibling = {}
 def sibling_keys():
     """keys of an unrelated IKE_SA (the successor of a rekey in a separate world)"""
     if not _sibling:
-        w = S.established()
+        w = S.new_world()
+        for ep in w.endpoints.values():
+            ep.rand_counter = 770000        # another stretch of the deterministic streams: keys unrelated to any explored world
+        w.step(('acquire', 'A', 0, 0))
+        w.deliver_all()
         w.step(('due', 'A', 0, 'rekey_ike'))
         w.deliver_all()
         sa = w.endpoints['A'].controller.ike_sas[0]
